@@ -101,7 +101,13 @@ def is_zero(t):
     with probe.oracle():
         try:
             from ..dense import dense_b
-            return not np.any(dense_b(t))
+            x = dense_b(t)
+            if not np.any(x):
+                return True
+            # numerically zero (a - a in another gauge, cancelling sums): an orthonormalisation sweep may turn the remaining
+            # rounding noise into an exact 0, after which the relative cut is 0/0 just the same
+            scale = float(np.prod([np.linalg.norm(np.asarray(c).ravel()) for c in t.cores]))
+            return float(np.abs(x).max()) <= 1e-11 * scale
         except Exception:
             return True
 
